@@ -4,10 +4,11 @@ from . import c12
 
 def plan(tier, seed, kf_ids):
     p = c12.plan(tier, seed, kf_ids, prefix="c17", budget=True)
-    p["bounds"] = ("iteration budget 4*W+64 enforced by the tick() hook at the top of every loop body (a call that needs "
-                   "more iterations fails the 'iteration budget exceeded' check); operands as for C12 but sin/cos over the "
-                   "FULL operand range of each type (no |x| <= 200 restriction); unwinding = budget + 2 with unwinding "
-                   "assertions on")
+    p["bounds"] = ("iteration budget enforced by the tick() hook at the top of every loop body: the solver proves the TIGHTER "
+                   "budget W+32 for every operand (a call that needs more iterations fails the 'iteration budget exceeded' "
+                   "check; unwinding = W+34 with unwinding assertions on); a counterexample is replayed natively with the "
+                   "property's budget 4*W+64 and reported only if it exceeds that; operands as for C12 but sin/cos over the "
+                   "FULL operand range of each type (no |x| <= 200 restriction)")
     p["outside"] = ["operands outside the families for sqrt/ln/log2/exp on 64/128-bit types (their trip counts are literals "
                     "0..frac_nbits plus the halving loop of log2_inner)", "pow (= ln + exp)", "powi (linear in |n| by design)"]
     return p
